@@ -24,14 +24,15 @@ STRING_POOL = ["x", "abc", "a b", "two  spaces", " lead", "trail ", "", "it's", 
                "/abs/path/file.txt", "rel/path.csv", "%percent", "x.y", "a-b", "\\1", "D:\\surveys\\2019\\07\\p.csv", "end\\", "q'", '"', "'", "\r", "a\r\nb",
                "\x41\u00e9", "very long " * 5, "1e5", "1e-05", "\\u2603", "\\N", "nul\\0",
                "\U0001F600 grin", "\U00020BB7野家", "math \U0001D49C", "\uffff edge \U00010000", "50\\% cover", "\\\\server\\share\\x", "C:\\path\\data\\sites.gdb",
-               "vt\x0bff\x0cfs\x1cgs\x1drs\x1e", "nel\x85ls\u2028ps\u2029end"]
+               "vt\x0bff\x0cfs\x1cgs\x1drs\x1e", "nel\x85ls\u2028ps\u2029end",
+               "It\u2019s dry", "the \u201ccore\u201d area", "\u2018single\u2019", "Dry season", "Dry  season", "a b", "a  b", "a\tb", "# c"]
 
 
 def is_ident(s):
     return len(s) > 0 and s[0] in ID_START and all(c in ID_CONT for c in s)
 
 
-PLAIN_POOL = ["../data/inputs/slope-m.csv", "%abc", "x.y", "a-b", "./rel/path.txt", "émile", "name.ext", "/abs/dir/file.nc", "a.b.c", "~user", "x+y", "a/b", "☃", "*.csv", "-x"]
+PLAIN_POOL = ["../data/inputs/slope-m.csv", "%abc", "x.y", "a-b", "./rel/path.txt", "émile", "name.ext", "/abs/dir/file.nc", "a.b.c", "~user", "x+y", "a/b", "☃", "*.csv", "-x", "\u2018x\u2019", "O\u2019Brien", "\u201cdata.csv\u201d"]
 
 
 def is_bare_safe(s):
